@@ -132,6 +132,8 @@ def run(ctx):
     stats = dict(channels=0, reads=0, scaled=0, unscaled=0, empty_channels=0)
     combos = set()
     scale_kinds = ["none"] + gs.STRUCTURAL + gs.SENSORS + ["AdvancedAPI", "chain", "graph", "graph"]
+    import tempfile
+    memdir = tempfile.mkdtemp(prefix="nptdms_verif_c14_")
     rounds = ctx.n(3, 60)
     for rd in range(rounds):
         for ty in ALL_TYPES:
@@ -187,8 +189,15 @@ def run(ctx):
                 stats["empty_channels"] += n == 0
                 combos.add((ty, sk, n == 0))
                 declared = None
-                for lazy in (False, True):
-                    f = (nptdms.TdmsFile.open if lazy else nptdms.TdmsFile.read)(io.BytesIO(data))
+                for lazy in (False, True, "memmap"):
+                    if lazy == "memmap":
+                        # the memmap_dir option (lazy): same promises; only every fourth channel to keep the run short
+                        if stats["channels"] % 4:
+                            continue
+                        f = nptdms.TdmsFile.open(io.BytesIO(data), memmap_dir=memdir)
+                        lazy = True
+                    else:
+                        f = (nptdms.TdmsFile.open if lazy else nptdms.TdmsFile.read)(io.BytesIO(data))
                     ch = f["g"]["c"]
                     info = dict(file=data.hex(), raw_type=ty, scale=sk, lazy=lazy)
                     try:
@@ -242,9 +251,11 @@ def run(ctx):
             break
     if len(violations) < 5:
         violations += empty_chunk_pass(ctx, model, nptdms, stats)
+    import shutil
+    shutil.rmtree(memdir, ignore_errors=True)
     return dict(violations=violations[:5], disagreements=disagreements[:20],
                 coverage=dict(evaluations=stats["reads"], distinct_nontrivial=len(combos),
-                              rule="every readable raw type (17) x {no scaling, Linear, Polynomial, Table, Add, Subtract, RTD, Strain, Thermistor, Thermocouple, AdvancedAPI, "
+                              rule="eager, lazy and lazy with memmap_dir; every readable raw type (17) x {no scaling, Linear, Polynomial, Table, Add, Subtract, RTD, Strain, Thermistor, Thermocouple, AdvancedAPI, "
                                    "random graph} (scalings on numeric types) x {eager, lazy} x {[:], read_data(), windows incl. empty and out-of-range, slices incl. empty and "
                                    "stepped, integer index, .data, every channel chunk} with 0-7 values split over two segments, both byte orders; distinct_nontrivial = "
                                    "distinct (raw type, scale kind, empty?) combinations",
